@@ -127,6 +127,9 @@ func newCtx(ch *Check, tier string, seed int64) *Ctx {
 }
 
 func loadKnown(prop string) []KnownFinding {
+	if os.Getenv("VERIF_NO_KNOWN") != "" { // development aid: list every signature, including the known ones
+		return nil
+	}
 	b, err := os.ReadFile(filepath.Join(verifDir, "known_findings.json"))
 	if err != nil {
 		return nil
@@ -468,6 +471,8 @@ func classifyCrash(stderr string) (msg string, frames []string) {
 	}
 	// strip addresses / numbers to make the message class stable
 	msg = regexp.MustCompile(`0x[0-9a-f]+|\b\d{4,}\b`).ReplaceAllString(m, "N")
+	msg = regexp.MustCompile(`(of class: \S+) \(.*$`).ReplaceAllString(msg, "$1")
+	msg = strings.TrimSuffix(msg, " [recovered, repanicked]")
 	if len(msg) > 160 {
 		msg = msg[:160]
 	}
@@ -495,6 +500,10 @@ func classifyCrash(stderr string) (msg string, frames []string) {
 			// skip generic re-panic frames of the VM run loop
 			if strings.Contains(fn, "(*Thread).run.func") || strings.Contains(fn, "Thread).InterpretTopLevel.func") {
 				continue
+			}
+			// everything from the interpreter loop outwards is the same for every crash
+			if fn == "vm.(*Thread).run" && len(frames) > 0 {
+				break
 			}
 			frames = append(frames, fn)
 			if len(frames) >= 3 {
@@ -823,12 +832,19 @@ func replayWitnesses(c *Ctx) {
 		}
 		src, _ := w["elk"].(string)
 		want, hasWant := w["expected_stdout"].(string)
-		if src == "" || !hasWant {
+		crashWitness, _ := w["crash_witness"].(bool)
+		if src == "" || (!hasWant && !crashWitness) {
 			continue
 		}
 		out := runWitnessChild(src)
 		c.Count("known_finding_witnesses_replayed", 1)
-		if out != want {
+		reproduced := out != want
+		if crashWitness {
+			// the program ends with `println "done"`: it reproduces while the interpreter dies before that
+			// line (Go panic / fatal error) and the checker still accepts the program
+			reproduced = !strings.Contains(out, "done\n") && !strings.Contains(out, "REJECTED")
+		}
+		if reproduced {
 			c.mu.Lock()
 			c.knownSeen[k.ID] = true
 			c.knownHits[k.ID]++
